@@ -67,7 +67,9 @@ def roundtrip_sym(p):
     tab = c.pixels()[:]
     cover("empty_chunk", any(a == b_ for a, b_ in zip(cuts[:-1], cuts[1:])))
     cover("diagonal", or_(*[x == y for x, y in zip(b1, b2)]) if K else False)
-    if len(tab) != K:
+    if "w" not in list(tab.columns) or "count" not in list(tab.columns):
+        prove(False, f"a value column is missing from the pixel table read back (columns {list(tab.columns)})")
+    elif len(tab) != K:
         prove(False, f"pixel table has {len(tab)} rows, {K} were given")
     else:
         prove(and_(*[and_(tab["bin1_id"].values[q] == b1[q], tab["bin2_id"].values[q] == b2[q],
@@ -115,6 +117,8 @@ def roundtrip_real(p, inputs):
     c = cooler.Cooler(path)
     tab = c.pixels()[:]
     exp = pd.DataFrame({k: mk(vv, k) for k, vv in cols.items()})
+    if any(k not in tab.columns for k in cols):
+        raise OracleFailure(f"a value column is missing from the pixel table read back (columns {list(tab.columns)})")
     if len(tab) != K or not all(np.array_equal(tab[k].to_numpy().astype(exp[k].dtype if k in ("count", "w") else "int64"), exp[k].to_numpy()) for k in cols):
         raise OracleFailure(f"pixel table read back {tab.to_dict('list')} differs from the records given {exp.to_dict('list')}")
     mat = c.matrix(balance=False)[:]
